@@ -94,3 +94,16 @@ static const int fx6_lens_stale[] = {sizeof "null ptr", sizeof "length is zero",
 const char *fx6_msg(int e) { return e >= 0 && e < 8 ? fx6_msgs[e] : ""; }
 size_t fx6_len_ok(int e) { if (e >= 0 && e < 8) return fx6_lens_ok[e] - 1; return 0; }
 size_t fx6_len_stale(int e) { if (e >= 0 && e < 8) return fx6_lens_stale[e] - 1; return 0; }
+/* index-based and nested forms */
+void fx6_set_index(uint8_t *dest, uint32_t len, uint8_t value) { uint32_t i; for (i = 0; i < len; i++) dest[i] = value; }
+void fx6_set_index_from1(uint8_t *dest, uint32_t len, uint8_t value) { uint32_t i; for (i = 1; i < len; i++) dest[i] = value; }     /* dest[0] never written */
+void fx6_move_nested(uint16_t *dest, const uint16_t *src, uint32_t len) {
+    uint32_t i;
+    while (len >= 4) { for (i = 0; i < 4; i++) dest[i] = src[i]; dest += 4; src += 4; len -= 4; }
+    while (len) { *dest++ = *src++; len--; }
+}
+void fx6_move_nested_gap(uint16_t *dest, const uint16_t *src, uint32_t len) {      /* the inner loop copies 3 of every 4 elements */
+    uint32_t i;
+    while (len >= 4) { for (i = 0; i < 3; i++) dest[i] = src[i]; dest += 4; src += 4; len -= 4; }
+    while (len) { *dest++ = *src++; len--; }
+}
